@@ -59,8 +59,8 @@ type Stage struct {
 type EngRes struct {
 	Name     string   `json:"name"`
 	Compile  Stage    `json:"compile"`
-	Inst     string   `json:"inst,omitempty"` // ok | skip:<why> | err:<text> | timeout
-	Calls    []string `json:"calls,omitempty"`
+	Inst     string   `json:"inst,omitempty"`     // ok | skip:<why> | err:<text> | timeout
+	Calls    []string `json:"calls,omitempty"`    // "<status> <export name>": status is the first word (no spaces)
 	Internal []string `json:"internal,omitempty"` // internal failures seen (panic text, runtime error …)
 }
 
@@ -484,7 +484,7 @@ func exercise(ctx context.Context, rq *Req, rt wazero.Runtime, cm wazero.Compile
 			defer func() {
 				if r := recover(); r != nil {
 					er.Internal = append(er.Internal, fmt.Sprintf("ExportedFunction(%q) panics: %v | %s", n, r, trimStack(debug.Stack())))
-					er.Calls = append(er.Calls, n+":internal")
+					er.Calls = append(er.Calls, "internal "+n)
 				}
 			}()
 			fn = mod.ExportedFunction(n)
@@ -506,12 +506,12 @@ func exercise(ctx context.Context, rq *Req, rt wazero.Runtime, cm wazero.Compile
 				switch {
 				case internalText(s):
 					er.Internal = append(er.Internal, fmt.Sprintf("call %s%v: %s", n, args, firstLine(s)))
-					er.Calls = append(er.Calls, n+":internal")
+					er.Calls = append(er.Calls, "internal "+n)
 				case strings.Contains(s, "context deadline") || strings.Contains(s, "module closed") || strings.Contains(s, "context canceled"):
-					er.Calls = append(er.Calls, n+":timeout")
+					er.Calls = append(er.Calls, "timeout "+n)
 					closed = true
 				default:
-					er.Calls = append(er.Calls, n+":trap:"+trapWord(s))
+					er.Calls = append(er.Calls, "trap:"+trapWord(s)+" "+n)
 				}
 			} else {
 				var sb bytes.Buffer
@@ -535,7 +535,7 @@ func exercise(ctx context.Context, rq *Req, rt wazero.Runtime, cm wazero.Compile
 					}
 					fmt.Fprintf(&sb, " %x", v)
 				}
-				er.Calls = append(er.Calls, n+":ok"+sb.String())
+				er.Calls = append(er.Calls, "ok"+strings.ReplaceAll(sb.String(), " ", ",")+" "+n)
 			}
 			if closed {
 				break
